@@ -262,6 +262,17 @@ def special_corruption(sym, case, warm=()):
         ci, objs = base_composeinfo(0)
         objs["Server-HA"].arches = set(["x86_64", "ppc64le"])
         top = ci
+    elif case == "grandchild-arch-outside-parent-inside-top":
+        ci, objs = base_composeinfo(0)
+        deep = Variant(ci)
+        deep.id, deep.uid, deep.name, deep.type = "Deep", "Server-HA-Deep", "deep", "variant"
+        top_only = sorted(set(objs["Server"].arches) - set(objs["Server-HA"].arches))
+        deep.arches = set(top_only[:1])          # an arch the top-level variant has and the direct parent has not
+        deep.parent = objs["Server-HA"]
+        objs["Server-HA"].variants["Deep"] = deep
+        if not top_only:
+            return
+        top = ci
     elif case == "child-arch-outside-parent-first-child":
         ci, objs = base_composeinfo(0)
         v = Variant(ci)
@@ -337,6 +348,10 @@ def special_corruption(sym, case, warm=()):
     elif case == "tree-unreferenced-platform":
         ti, objs = base_treeinfo(0)
         ti.images.images["ppc64le"] = {"kernel": "images/vmlinuz"}
+        top = ti
+    elif case == "tree-unreferenced-platform-empty":
+        ti, objs = base_treeinfo(0)
+        ti.images.images["ppc64le"] = {}          # declared, no images yet - and not listed in [tree] platforms
         top = ti
     elif case == "tree-unreferenced-own-arch":
         ti, objs = base_treeinfo(0)
@@ -456,8 +471,8 @@ def jobs(tier, seed):
     add("treeinfo", "media", TREE_MEDIA_FIELDS, ks)
     for uid in ("Server", "Server-HA", "Client"):
         add("treeinfo", "v:" + uid, TREE_VARIANT_FIELDS, ks)
-    for case in ("child-arch-outside-parent", "child-arch-outside-parent-first-child", "misaligned-uid", "misaligned-top-uid", "empty-arches",
-                 "bad-variant-id", "bad-variant-id-aligned", "bad-child-id-aligned", "additional-variants-on-non-unified", "empty-checksums", "tree-absolute-checksum-path", "tree-unreferenced-platform", "tree-unreferenced-own-arch",
+    for case in ("child-arch-outside-parent", "grandchild-arch-outside-parent-inside-top", "child-arch-outside-parent-first-child", "misaligned-uid", "misaligned-top-uid", "empty-arches",
+                 "bad-variant-id", "bad-variant-id-aligned", "bad-child-id-aligned", "additional-variants-on-non-unified", "empty-checksums", "tree-absolute-checksum-path", "tree-unreferenced-platform", "tree-unreferenced-platform-empty", "tree-unreferenced-own-arch",
                  "tree-absolute-image-path", "tree-absolute-stage2", "tree-misaligned-child-uid", "tree-dashed-variant-id"):
         for w in ([], ["images"], ["treeinfo"]) if (big or case.startswith("tree") or "arch" in case or "uid" in case) else ([],):
             out.append({"harness": "special_corruption", "params": {"case": case, "warm": w}})
